@@ -293,6 +293,11 @@ where
     }
 }
 
+/// a NaN produced by the arithmetic itself (inf - inf, inf / inf) is the null of the float encoding
+fn nan_is_null(s: Series) -> Series {
+    s.into_iter().map(|v| v.filter(|x| !x.is_nan())).collect()
+}
+
 fn run_numeric<T>(c: &MapCase, op: Op, obs: &mut Obs) -> CheckResult
 where
     T: InElem + OutElem + tevec::prelude::Number + tevec::prelude::Cast<f64>,
@@ -320,12 +325,12 @@ where
             };
             let (got, label) = with_backend(c.bk, &d, T::from_logical(Some(55.0)), &mut DiffFn { n: c.n, fill: fill.clone() });
             obs.class(label);
-            cmp("vdiff", &got, &mm::diff(x, n, fill.and_then(|f| f.to_logical())), 0.0, c)
+            cmp("vdiff", &got, &nan_is_null(mm::diff(x, n, fill.and_then(|f| f.to_logical()))), 0.0, c)
         },
         Op::VPct => {
             let (got, label) = with_backend(c.bk, &d, T::from_logical(Some(55.0)), &mut PctFn { n: c.n });
             obs.class(label);
-            cmp("vpct_change", &got, &mm::pct_change(x, n), 2.0, c)
+            cmp("vpct_change", &got, &nan_is_null(mm::pct_change(x, n)), 2.0, c)
         },
         _ => unreachable!(),
     }
@@ -356,6 +361,22 @@ fn check(c: &MapCase, op: Op, obs: &mut Obs) -> CheckResult {
             _ => {
                 let mut c2 = c.clone();
                 c2.enc = Enc::F64;
+                if matches!(op, Op::VDiff | Op::VPct) && c.mask & 0xC0 == 0x40 {
+                    // infinite and near-overflow elements: x - y and x / y - 1 are still defined element
+                    // by element (inf - inf and inf / inf are nulls, a finite value over inf is -1)
+                    for (i, v) in c2.x.iter_mut().enumerate() {
+                        if v.is_some() {
+                            match (i * 3 + c.mask as usize) % 7 {
+                                0 => *v = Some(f64::INFINITY),
+                                1 => *v = Some(f64::NEG_INFINITY),
+                                2 => *v = Some(1.0e308),
+                                3 => *v = Some(-1.2e308),
+                                _ => {},
+                            }
+                        }
+                    }
+                    obs.class("infinite_or_huge_elements");
+                }
                 run_numeric::<f64>(&c2, op, obs)
             },
         },
